@@ -218,6 +218,17 @@ def func_scripts(d, prop):
         out.append({"case": op, "prop": prop, "ety": "tk", "steps": steps, "d": dd})
 
     refs = ["ref", "mut"]
+    if n >= 1024:
+        # very long arrays: one representative form per operation (TLC handles 1024-element sequences slowly)
+        if op == "generate":
+            add([{"op": "generate", "n": n, "okind": "box", "panic_at": pa}], okind="box")
+        elif op in ("map", "fold") and form[0]:
+            add([_mk("arr", n), {"op": op, "recv": [1], "form": ["own"], "panic_at": pa}], recv="own")
+        elif op == "zip" and form[0] and form[1]:
+            add([_mk("arr", n), _mk("arr", n), {"op": "zip", "recv": [1, 2], "form": ["own", "own"], "panic_at": pa}], recv="own,own")
+        elif op == "zip" and form[0] and not form[1]:
+            add([_mk("arr", n), _mk("arr", n), {"op": "zip", "recv": [1, 2], "form": ["own", "ref"], "panic_at": pa}], recv="own,ref")
+        return out
     if op == "generate":
         for okind in ("arr", "box"):
             add([{"op": "generate", "n": n, "okind": okind, "panic_at": pa}], okind=okind)
